@@ -1,6 +1,6 @@
 //! C08 graph, C09 properties, C10 aliases, C11 indexes, C18 elements search:
 //! bounded-exhaustive command sequences on the real database (DbMemory,
-//! branching by `copy`) in lock-step with the reference model `RefDb`.
+//! every sequence replayed from scratch) in lock-step with the reference model `RefDb`.
 //! Each property has its own alphabet, depth and oracle clauses. DESIGN.md §4.
 
 use crate::dbops::*;
@@ -307,7 +307,8 @@ fn replay_json(base: &str, path: &[usize], alpha: &[Cmd]) -> Value {
 }
 
 /// One step on (db, model). Returns false if exploration below must stop.
-fn step(ctx: &Ctx, db: &mut Box<dyn DbLike>, m: &mut RefDb, c: &Cmd, rj: &dyn Fn() -> Value) -> bool {
+/// `observe`: compare the property's observations after the step.
+fn step(ctx: &Ctx, db: &mut Box<dyn DbLike>, m: &mut RefDb, c: &Cmd, observe: bool, rj: &dyn Fn() -> Value) -> bool {
     ctx.transitions.fetch_add(1, Ordering::Relaxed);
     let st = c.step();
     let r = catch(|| st.run(db.as_mut()));
@@ -323,7 +324,6 @@ fn step(ctx: &Ctx, db: &mut Box<dyn DbLike>, m: &mut RefDb, c: &Cmd, rj: &dyn Fn
     match (&r, &verdict) {
         (_, Err(Reject(why))) if why.starts_with("SKIP") => return false,
         (Ok(_), Err(Reject(why))) => {
-            // the implementation accepted what the model rejects: is there an effect?
             ctx.report.violation(&format!("cmd={}|accepted-invalid|{}", c.kind(), why), &format!("`{}` succeeded although it must be rejected ({why})", c.name()), rj());
             return false;
         }
@@ -344,6 +344,9 @@ fn step(ctx: &Ctx, db: &mut Box<dyn DbLike>, m: &mut RefDb, c: &Cmd, rj: &dyn Fn
         ctx.report.violation(&format!("cmd={}|ids|{}", c.kind(), engine::normalise(&problems[0])), &problems.join("; "), rj());
         return false;
     }
+    if !observe {
+        return true;
+    }
     match catch(|| compare(ctx.p, db.as_ref(), m)) {
         Ok(Ok(())) => true,
         Ok(Err((clause, what))) => {
@@ -357,24 +360,48 @@ fn step(ctx: &Ctx, db: &mut Box<dyn DbLike>, m: &mut RefDb, c: &Cmd, rj: &dyn Fn
     }
 }
 
-fn dfs(ctx: &Ctx, base: &str, db: &dyn DbLike, m: &RefDb, path: &mut Vec<usize>) {
+/// Replays base script + path on a FRESH database (no copies: in-memory state such as the
+/// undo stack is exactly what a user's process would have), observing after the last step.
+/// Returns false if the path must not be extended.
+fn run_path(ctx: &Ctx, base: &(&'static str, Vec<Cmd>), path: &[usize]) -> bool {
+    let Ok(mut db) = Variant::Memory.open("/nonexistent/c08") else {
+        engine::machinery_failure("cannot open an in-memory database");
+    };
+    let mut m = RefDb::default();
+    for c in &base.1 {
+        let rj = || json!({"base": base.0, "base_script_step": c.name()});
+        if !step(ctx, &mut db, &mut m, c, false, &rj) {
+            return false;
+        }
+    }
+    for (n, i) in path.iter().enumerate() {
+        let last = n + 1 == path.len();
+        let rj = || replay_json(base.0, &path[..=n], &ctx.alpha);
+        if !step(ctx, &mut db, &mut m, &ctx.alpha[*i], last, &rj) {
+            return false;
+        }
+    }
     let mut s = String::new();
     let _ = write!(s, "{m:?}");
     ctx.states.insert(s.as_bytes());
+    true
+}
+
+/// whether a path is extendable, judged silently (its own work item reports its violations)
+fn run_path_quiet(ctx: &Ctx, base: &(&'static str, Vec<Cmd>), path: &[usize]) -> bool {
+    let silent = Report::new(&engine::Args { property: ctx.report.property.clone(), tier: ctx.report.tier, replay: None, seed: 0, extra: vec![] }, "model_checking");
+    let c2 = Ctx { p: ctx.p, report: &silent, alpha: ctx.alpha.clone(), depth: ctx.depth, transitions: AtomicU64::new(0), rejected: AtomicU64::new(0), states: DistinctCounter::default() };
+    run_path(&c2, base, path)
+}
+
+fn dfs(ctx: &Ctx, base: &(&'static str, Vec<Cmd>), path: &mut Vec<usize>) {
     if path.len() >= ctx.depth {
         return;
     }
-    for (i, c) in ctx.alpha.iter().enumerate() {
+    for i in 0..ctx.alpha.len() {
         path.push(i);
-        let copy = db.copy_to("c");
-        if let Ok(mut d2) = copy {
-            let mut m2 = m.clone();
-            let rj = || replay_json(base, path, &ctx.alpha);
-            if step(ctx, &mut d2, &mut m2, c, &rj) {
-                dfs(ctx, base, d2.as_ref(), &m2, path);
-            }
-        } else {
-            ctx.report.violation("copy-failed", "DbMemory::copy failed", replay_json(base, path, &ctx.alpha));
+        if run_path(ctx, base, path) {
+            dfs(ctx, base, path);
         }
         path.pop();
     }
@@ -394,50 +421,48 @@ pub fn run(args: &Args) -> i32 {
     let ctx = Ctx { p, report: &report, alpha: alphabet(p), depth, transitions: AtomicU64::new(0), rejected: AtomicU64::new(0), states: DistinctCounter::default() };
     let bs = bases(p);
 
-    let open_base = |bi: usize| -> Option<(Box<dyn DbLike>, RefDb)> {
-        let mut db = Variant::Memory.open("/nonexistent/c08").ok()?;
-        let mut m = RefDb::default();
-        for c in &bs[bi].1 {
-            let rj = || json!({"base": bs[bi].0, "base_script_step": c.name()});
-            if !step(&ctx, &mut db, &mut m, c, &rj) {
-                return None;
-            }
-        }
-        Some((db, m))
-    };
-
     if let Some(path) = &args.replay {
         let v: Value = serde_json::from_str(&std::fs::read_to_string(path).unwrap_or_else(|e| engine::machinery_failure(&e.to_string()))).unwrap();
         let r = &v["replay"];
         let bi = bs.iter().position(|b| Some(b.0) == r["base"].as_str()).unwrap_or(0);
-        if let Some((mut db, mut m)) = open_base(bi) {
-            let idx: Vec<usize> = r["command_indexes"].as_array().map(|a| a.iter().map(|x| x.as_u64().unwrap_or(0) as usize).collect()).unwrap_or_default();
-            for (n, i) in idx.iter().enumerate() {
-                let rj = || replay_json(bs[bi].0, &idx[..=n], &ctx.alpha);
-                if !step(&ctx, &mut db, &mut m, &ctx.alpha[*i], &rj) {
-                    break;
-                }
+        let idx: Vec<usize> = r["command_indexes"].as_array().map(|a| a.iter().map(|x| x.as_u64().unwrap_or(0) as usize).collect()).unwrap_or_default();
+        for n in 1..=idx.len() {
+            if !run_path(&ctx, &bs[bi], &idx[..n]) {
+                break;
             }
         }
         return report.finish();
     }
 
-    // work items: (base, first command)
+    // work items: (base, first command[, second command])
     let mut items = vec![];
     for bi in 0..bs.len() {
+        // the base state itself must satisfy the clauses
         for i in 0..ctx.alpha.len() {
-            items.push((bi, i));
+            items.push((bi, vec![i]));
+            if depth >= 2 {
+                for j in 0..ctx.alpha.len() {
+                    items.push((bi, vec![i, j]));
+                }
+            }
         }
     }
     engine::par_for(items.len(), args.seed, |_w, n| {
-        let (bi, first) = items[n];
-        let Some((mut db, mut m)) = open_base(bi) else {
-            return; // the base script itself violated a clause (already reported)
-        };
-        let mut path = vec![first];
-        let rj = || replay_json(bs[bi].0, &[first], &ctx.alpha);
-        if step(&ctx, &mut db, &mut m, &ctx.alpha[first], &rj) {
-            dfs(&ctx, bs[bi].0, db.as_ref(), &m, &mut path);
+        let (bi, prefix) = &items[n];
+        // a prefix of length 2 runs only if its first command alone is extendable; it owns its extensions
+        if prefix.len() == 1 {
+            run_path(&ctx, &bs[*bi], prefix);
+            return;
+        }
+        let mut m_probe = prefix[..1].to_vec();
+        let saved = ctx.transitions.load(Ordering::Relaxed);
+        let _ = saved;
+        if !run_path_quiet(&ctx, &bs[*bi], &m_probe) {
+            return;
+        }
+        m_probe.push(prefix[1]);
+        if run_path(&ctx, &bs[*bi], &m_probe) {
+            dfs(&ctx, &bs[*bi], &mut m_probe);
         }
     });
     report.sample(replay_json(bs[0].0, &[0, 2, 8], &ctx.alpha));
@@ -450,7 +475,7 @@ pub fn run(args: &Args) -> i32 {
     report.set("base_states", json!(bs.iter().map(|b| b.0).collect::<Vec<_>>()));
     report.set("commands_rejected_by_both", json!(ctx.rejected.load(Ordering::SeqCst)));
     report.set("exhaustive", json!(true));
-    report.set("rule", json!("every command sequence of <= depth over the property's alphabet from its base states, executed on the real DbMemory (branching by copy) and on the reference model RefDb; after every command acceptance, the learned ids (sign, freshness) and the property's observation clauses are compared. states = distinct model states reached."));
+    report.set("rule", json!("every command sequence of <= depth over the property's alphabet from its base states, replayed from scratch on a fresh real DbMemory (no copies, so in-memory state such as the undo stack is faithful) and on the reference model RefDb; acceptance and the learned ids (sign, freshness) are compared at every command, the property's observation clauses after the last command of every sequence. states = distinct model states reached."));
     report.assume("the reference model follows the property statement and docs/03.references/01.queries.md; ids are learned from results; the order of an element's remaining properties after a key removal is not constrained");
     report.finish()
 }
